@@ -687,3 +687,59 @@ def rule_fields(ctx: Ctx) -> List[Ob]:
                       f"assigned to {hits}" + ("" if tgt in hits else f" (expected {tgt} among them)") + gwhy,
                       construct=f"{tgt} <- checkpoint.{fld}"))
     return obs
+
+
+@rule("RESTARTX", min_instances=1)
+def rule_restartx(ctx: Ctx) -> List[Ob]:
+    """a restart takes fun, jac and the history from the checkpoint and the point from the caller: the two belong together
+    only if the start point is *exactly* checkpoint.x -- the package must test that with an exact comparison that raises on
+    any difference (np.testing.assert_equal / assert_array_equal, np.array_equal, ==), or take the point from the
+    checkpoint; a comparison up to a tolerance lets the run continue with values of another point"""
+    EXACT = ("assert_equal", "assert_array_equal", "array_equal")
+    TOL = ("assert_allclose", "allclose", "isclose", "assert_array_almost_equal", "assert_almost_equal", "assert_approx_equal",
+           "assert_array_almost_equal_nulp", "assert_array_max_ulp", "array_equiv")
+    obs: List[Ob] = []
+    found = 0
+    for q in ("main.initialize_X_and_G", "main.minimize_lbfgsb"):
+        f = ctx.repo.func(q)
+        ck = "checkpoint"
+        if ck not in f.params:
+            continue
+        for c in walk_no_nested(f.node):
+            if isinstance(c, ast.Call):
+                args = list(c.args) + [k.value for k in c.keywords]
+                if len(c.args) >= 2 and any(src(a) == f"{ck}.x" for a in c.args[:2]):
+                    name = (dotted(c.func) or "").split(".")[-1]
+                    if name in EXACT or name in TOL:
+                        found += 1
+                        ok = name in EXACT and not any(k.arg in ("rtol", "atol", "decimal", "significant", "nulp", "maxulp", "equal_nan") for k in c.keywords
+                                                        if not (k.arg == "equal_nan" and src(k.value) == "False"))
+                        if ok and name == "array_equal":
+                            # the outcome must decide a raise
+                            cfg = ctx.cfg(f)
+                            try:
+                                n = cfg.node_of(c)
+                                ok = n.kind == "test" or any(isinstance(x, ast.Raise) for x in ast.walk(n.ast))
+                            except Exception:
+                                ok = False
+                        obs.append(ob("RESTARTX", "the start point of a restart is compared exactly with checkpoint.x", f, c, ok,
+                                      f"{short(c, 80)}" + ("" if ok else ": equality up to a tolerance -- the run goes on from a point whose fun / jac / history "
+                                                           "are those of checkpoint.x"), construct=f"{name}(x0, checkpoint.x)"))
+            if isinstance(c, ast.Compare) and len(c.ops) == 1 and isinstance(c.ops[0], (ast.Eq, ast.NotEq)) and \
+                    any(src(a) == f"{ck}.x" for a in (c.left, c.comparators[0])):
+                found += 1
+                obs.append(ob("RESTARTX", "the start point of a restart is compared exactly with checkpoint.x", f, c, True,
+                              f"{short(c, 80)}", construct="x0 == checkpoint.x"))
+        # or the point is the checkpoint's
+        for s in walk_no_nested(f.node):
+            if isinstance(s, ast.Assign) and len(s.targets) == 1 and isinstance(s.targets[0], ast.Name) and s.targets[0].id in ("x", "x0") and \
+                    any(src(v) == f"{ck}.x" for v in ast.walk(s.value)) and not any(isinstance(v, ast.BinOp) for v in ast.walk(s.value)):
+                found += 1
+                obs.append(ob("RESTARTX", "the start point of a restart is compared exactly with checkpoint.x", f, s, True,
+                              f"{short(s, 80)}: the point is taken from the checkpoint", construct=short(s, 60)))
+    if not found:
+        f = ctx.repo.func("main.initialize_X_and_G")
+        obs.append(ob("RESTARTX", "the start point of a restart is compared exactly with checkpoint.x", f, f.node, False,
+                      "no comparison of the start point with checkpoint.x was found on the restart path",
+                      construct="x0 vs checkpoint.x"))
+    return obs
